@@ -77,7 +77,13 @@ func (l *listener) Listen(ctx context.Context, onMessage func(msg message) error
 
 		return nil
 	})
-	defer func() { _ = eg.Wait() }()
+	defer func() {
+		// Deferred functions run in reverse order, so the goroutine above must
+		// be released here: waiting for it before ctx is canceled would block
+		// forever when returning due to a receive error.
+		cancel()
+		_ = eg.Wait()
+	}()
 
 	for {
 		// Receive and pass incoming NDP messages to the caller.
